@@ -292,7 +292,7 @@ pub fn main(tier: Tier, replay: Option<String>) -> i32 {
     ctx.class("bytes_len_3_to_9_boundary", n);
 
     // (c) generated values and byte strings
-    let strat = prop_oneof![
+    let strat = || prop_oneof![
         any::<u64>().prop_map(Case::Value),
         (0u32..64, any::<u64>()).prop_map(|(s, v)| Case::Value(v >> s)),
         proptest::collection::vec(any::<u8>(), 0..12).prop_map(Case::Bytes),
